@@ -100,6 +100,8 @@ def replay_mode(prop, path):
         rep = json.load(f)
     backend = rep.get("backend", "hist-idn2")
     b = backend.replace("hist-", "")
+    debug = b.endswith("-debug")
+    b = b.replace("-debug", "")
     plain = b.endswith("-plain")
     b = b.replace("-plain", "")
     ndebug = b.endswith("-ndebug")
@@ -122,7 +124,7 @@ def replay_mode(prop, path):
             return 1
         print("replay: backends agree")
         return 0
-    exe, _ = build.build_hist(b, extra=extra, flags=flags, ndebug=ndebug, plain=plain)
+    exe, _ = build.build_hist(b, extra=extra, flags=flags, ndebug=ndebug, plain=plain, debug=debug)
     r = exec_plans(exe, rep["plans"], log=True)
     for l in r["logs"]:
         print("  " + l)
@@ -225,6 +227,8 @@ def c13(tier, seed):
     build_info["ndebug_variant"] = "build with -DNDEBUG also run (no allocation faults there: the unchanged tree dereferences NULL)"
     batches.append(Batch("ndebug-nofault", exe4, "C13", "nofault", seed + 5, 3000 if xq else 10**8, 60 if xq else 120, W, samples=False).run())
     batches.append(Batch("ndebug-fault", exe4, "C13", "fault", seed + 5, 3000 if xq else 10**8, 60 if xq else 120, W, samples=False).run())
+    exe6, _ = build.build_hist("idn2", debug=True)        # `make debug` configuration (-D_DEBUG)
+    batches.append(Batch("debug-fault", exe6, "C13", "fault", seed + 8, 2000 if xq else 10**8, 60 if xq else 90, W, samples=False).run())
     # volume front end for abbreviated-key look-up caches: warm-up over the whole TLD table, then 20 000 unknown labels per plan,
     # on an optimised build without sanitizer; a discrepancy comes back as an ordinary history plan
     exe5, _ = build.build_hist("idn2", plain=True)
@@ -269,6 +273,9 @@ def c19(tier, seed):
     build_info["ndebug_variant"] = "build with -DNDEBUG also run"
     batches.append(Batch("ndebug-single", exe4, "C19", "single", seed + 5, (1 if q else 4) * per_base, 0, W).run())
     batches.append(Batch("ndebug-multi", exe4, "C19", "multi", seed + 5, 3000 if q else 10**8, 60, W).run())
+    exe6, _ = build.build_hist("idn2", debug=True)        # the Makefile's own `make debug` configuration (-D_DEBUG: trace code compiled in)
+    build_info["debug_variant"] = "build with -D_DEBUG also run"
+    batches.append(Batch("debug-multi", exe6, "C19", "multi", seed + 8, 3000 if q else 10**8, 60, W).run())
     violations, known, nondet = handle_candidates("C19", batches)
     single = batches[1]
     rule = ("plan = run of 1-50 validations in mode 6531 (eav_is_email, is_6531_email, is_utf8_domain; tld_check/allow/mode toggles in between) with "
